@@ -665,7 +665,8 @@ func (w *world) genVerifyDS() {
 	// shape of the DS set: how its supported records fail, and what sits next to them
 	//   0 ordinary mix   1 every supported DS has an undecodable digest   2 only unsupported records
 	//   3 empty set      4 supported records name no offered key          5 one good DS among broken ones
-	shapes := []int{0, 1, 5, vlib.Pick(r, []int{2, 3, 4, 0, 1})}
+	// 6: right tag and digest, another supported algorithm   7: right tag and digest, another class
+	shapes := []int{0, 1, 5, 6, 7, vlib.Pick(r, []int{2, 3, 4, 0, 1})}
 	for _, shape := range shapes {
 		w.dsSet(keys, ktoks, rtoks, owner, shape)
 	}
@@ -710,13 +711,20 @@ func (w *world) dsSet(keys []*dns.DNSKEY, ktoks, rtoks []string, owner string, s
 		switch {
 		case shape == 4:
 			tag += uint16(1 + r.Intn(5))
+		case shape == 6 && !unsupportedRec:
+			for _, a := range []int{13, 8, 15, 14, 5} { // the digest covers the key's own algorithm octet, not the DS's
+				if a != int(k.Algorithm) {
+					alg = a
+					break
+				}
+			}
 		case shape == 0 && r.Chance(1, 8):
 			tag++
 		case shape == 0 && r.Chance(1, 8) && !unsupportedRec:
 			alg = vlib.Pick(r, []int{8, 13, 15})
 		}
 		class := 1
-		if r.Chance(1, 12) {
+		if r.Chance(1, 12) || (shape == 7 && !unsupportedRec) {
 			class = 3
 		}
 		dtoks = append(dtoks, fmt.Sprintf("%s,%d,%d,%d,%d,%s", hexStr(recaseStr(r, owner)), class, tag, alg, dt, hexStr(dig)))
@@ -1218,8 +1226,14 @@ func msgLine(zone string, keys []*dns.DNSKEY, sigs []*dns.RRSIG, rrs []wireRR, n
 			lib = append(lib, rr)
 		}
 	}
-	return fmt.Sprintf("vfy msg z=%s k=%s s=%s rr=%s a=%d o=%s c=%s sw=%s p=%s hx=%s tg=%s", hexStr(zone), tok(ks), tok(ss), rr, nAns,
-		ownersCol(rrs), canonCol(rrs), sw, per, hx, targetsCol(lib))
+	// a governor for the second pass: from very tight to effectively unlimited, derived from the line itself
+	h := 0
+	for _, c := range sw + hx {
+		h = (h*31 + int(c)) % 1000003
+	}
+	gov := fmt.Sprintf("%d,%d,%d", []int{1, 2, 3, 1000}[h%4], []int{1, 2, 4, 1000}[(h/4)%4], []int{0, 1, 2, 3, 5, 1000}[(h/16)%6])
+	return fmt.Sprintf("vfy msg z=%s k=%s s=%s rr=%s a=%d o=%s c=%s sw=%s p=%s hx=%s tg=%s g=%s", hexStr(zone), tok(ks), tok(ss), rr, nAns,
+		ownersCol(rrs), canonCol(rrs), sw, per, hx, targetsCol(lib), gov)
 }
 
 // genMessage drives VerifyRRSIG: one to three RRsets of one zone signed by
